@@ -121,6 +121,10 @@ class P(Process):
             c = run.ctx.flag('c')
         if self._last_poll is not None:
             self._last_poll['cond'] = c
+        if run.cfg.get('container_cond'):
+            # the condition is a container (e.g. the list of outstanding
+            # jobs): empty means "not now"
+            return [1] if c else []
         return c
 
     def next_update(self, timestep, states):
